@@ -45,6 +45,9 @@ def cargo_env():
     return env
 
 
+LAST_BUILD_OUTPUT = ""
+
+
 def build_harness():
     """(Re)build the harness against /repo's current working tree (path dependencies)."""
     global _built
@@ -58,6 +61,8 @@ def build_harness():
                        stdout=subprocess.PIPE, stderr=subprocess.STDOUT, text=True)
     if p.returncode != 0:
         sys.stderr.write(p.stdout[-6000:])
+        global LAST_BUILD_OUTPUT
+        LAST_BUILD_OUTPUT = p.stdout
         raise ToolError("harness does not build against the current /repo tree")
     log("harness built in %.1fs" % (time.time() - t0))
     _built = True
